@@ -5,6 +5,10 @@ import FqModel.JsonStr
 import Proofs.C07Json
 import FqModel.TryWrap
 import Proofs.C07Wrap
+import FqModel.C07Enc
+import Proofs.C07Enc
+import Proofs.C07Strip
+import Proofs.C07Num
 /-!
   C07 — standard jq programs behave in fq as in the reference jq engine   (claimed PARTIAL, category `other`)
 
@@ -35,9 +39,16 @@ import Proofs.C07Wrap
         `gen_reQuoteMeta_literal`, `escape_roundtrip`, `gen_tojson_string_equals_reference`,
         `gen_tojson_string_roundtrip`, `gen_tojson_string_injective`, `tryterm_parse_print`,
         `wrap_preserves_program`, `wrapBare_preserves_closed_program`, `wrapBare_captures_handler`.
-  NOT proved (the PARTIAL part): that gojq's compiler/VM implement the modelled scoping, and everything
-  that is not the override layer (regex engine, number formatting, the re-implemented functions' bodies:
-  split/2 via splits, tojson's encoder, fromjson via decode, debug/stderr via fq's stdio) — differential only.
+  (C) THE JSON TEXT LAYER on transliterations of BOTH sides (FqModel/C07Enc.lean: fq's colorjson, gojq's library
+      encoder, gojq's command encoder; `fromjson`'s number decision and framing), for all values / tokens:
+        `tojson_agrees`, `float_clamp_agrees`, `indent_is_reference_command`, `indent_strip_is_compact`,
+        `gen_table_string_safe`, `write_indent_exact`, `key_order_unique`, `fromjson_number_agrees`,
+        `normalizeNumber_spec`, `number_grammar_roundtrip`, `fromjson_framing_agrees`;
+      tied to the code by run `enc` (both REAL sides on the same inputs, both predicted by the models).
+  NOT proved (the PARTIAL part): that gojq's compiler/VM implement the modelled scoping, the standard library
+  both sides share (strconv, encoding/json's tokenizer, utf8), and the rest that is not the override layer or
+  the text layer (regex engine, split/2 via splits, debug/stderr via fq's stdio, fromjson's RESULT being a
+  decode value) — differential only.
 -/
 namespace Props.C07
 open FqModel FqModel.JqEnv Proofs.C07
@@ -361,6 +372,184 @@ theorem wrapBare_captures_handler :
 example : noDangling (wrap (.tryn (.tryc (.atom 0) (.tryn (.atom 1)))) (.atom 2)) = true := by decide
 example : parseAll (print (wrap (.tryn (.atom 0)) (.atom 1))) = some (wrap (.tryn (.atom 0)) (.atom 1)) := by decide
 end Wrap
+
+/-! ## the JSON TEXT layer: fq's encoder against the reference's two encoders, and `fromjson`'s numbers
+
+  fq re-implements `tojson` and prints EVERY value through its own encoder (internal/colorjson, a copy of the
+  encoder of gojq's command); the reference engine uses gojq's encoder.go, the reference command cli/encoder.go.
+  FqModel/C07Enc.lean transliterates all three (strings: the escaping tables read off the ASTs, JsonStr; indentation
+  writer and integer formatting: C10Json, reused) over Go values as the engines see them — byte strings incl.
+  invalid UTF-8, `int` / `*big.Int` of any size, floats by bit pattern, maps in any iteration order, unbounded
+  nesting. `af` is strconv.AppendFloat, a shared parameter. Tied to the code by run `enc` of harness c07: both REAL
+  encoders (and the real cli/encoder.go) on the same values, both predicted by these models. -/
+section TextLayer
+open FqModel.C07Enc Proofs.C07Enc
+
+/-- the two ways of writing the clamp to ±MaxFloat64 (`if f >= Max … else if f <= -Max …` in fq, `min(max(f, -Max),
+    Max)` with Go's builtin min/max in gojq) agree on every bit pattern -/
+theorem float_clamp_agrees (f : Nat) : Fq.clamp f = Gojq.clamp f := clamp_agrees f
+
+/-- `tojson` / `fq -c` / `@json`: for EVERY value, fq's compact text (whatever `Tab` says) is the reference
+    engine's — strings for all byte strings (by `gen_encoders_equal`, the regenerated tables), integers of any
+    size, floats (NaN → null, ±Inf → ±MaxFloat64, the rest through the shared strconv), key order, separators,
+    nesting of any depth -/
+theorem tojson_agrees (af : Nat → Bool → List Nat) (tab : Bool) (v : JV) :
+    Fq.marshal Gen.Encoder.fq af tab 0 v = Gojq.marshal Gen.Encoder.gojq af v := by
+  unfold Fq.marshal Gojq.marshal
+  rw [gen_encoders_equal]
+  exact compact_eq _ af tab (normalize v) 0
+
+/-- the indented form (`fq` without `-c`: Indent 2; `tojson($opts)`: any n) is EXACTLY what the reference COMMAND's
+    encoder writes for `--indent n` / `--tab` (gojq cli.go:399-407; the command itself accepts 0..7): this is the
+    law fq's display must satisfy, for every value, indent and tab setting -/
+theorem indent_is_reference_command (af : Nat → Bool → List Nat) (tab : Bool) (n : Nat) (v : JV) :
+    Fq.marshal Gen.Encoder.fq af tab n v = GojqCli.marshal Gen.Encoder.gojq af tab n v := by
+  unfold Fq.marshal GojqCli.marshal
+  rw [gen_encoders_equal]
+  exact cli_eq _ af tab n (normalize v) 0
+
+/-- `writeIndent` — the loop that doubles the indentation by copying the tail of the buffer — writes a line feed and
+    exactly `depth` tabs/spaces, for every depth (beyond the 32-space / 16-tab constants too) -/
+theorem write_indent_exact (tab : Bool) (depth : Nat) :
+    nl tab depth = 10 :: List.replicate depth (if tab then 9 else 32) := nl_spec tab depth
+
+/-- the regenerated escaping table keeps a JSON reader inside the string: every replacement is ASCII, no bare quote,
+    no dangling backslash (a table that wrote `"` for `"` would break this) -/
+theorem gen_table_string_safe : Proofs.C07Strip.tableSafe Gen.Encoder.fq = true := by decide
+
+/-- THE WHITE-SPACE LAW: for every value, indent and tab setting, fq's indented text with the insignificant white
+    space (outside strings) removed is the reference engine's compact text — the indentation adds nothing but
+    line feeds, tabs/spaces and the blank after `:`; blanks INSIDE strings and keys survive. `haf`: strconv writes
+    neither white space nor quotes into a number. -/
+theorem indent_strip_is_compact (af : Nat → Bool → List Nat)
+    (haf : ∀ b e, (af b e).all Proofs.C07Strip.plainCh = true) (tab : Bool) (n : Nat) (v : JV) :
+    stripWs (Fq.marshal Gen.Encoder.fq af tab n v) = Gojq.marshal Gen.Encoder.gojq af v := by
+  have h := Proofs.C07Strip.strip_encode Gen.Encoder.fq af tab n gen_table_string_safe haf (normalize v) 0 []
+  simp only [List.append_nil, strip] at h
+  unfold stripWs Fq.marshal Gojq.marshal
+  rw [h, gen_encoders_equal]
+
+/-- non-vacuity of `haf` (`1e-07` as strconv writes it) and of the law: `{"a b":[1, " "]}` at `--indent 3` -/
+example : ∀ b e, ((fun (_ : Nat) (_ : Bool) => [49, 101, 45, 48, 55]) b e).all Proofs.C07Strip.plainCh = true := by
+  intro _ _; show ([49, 101, 45, 48, 55] : List Nat).all Proofs.C07Strip.plainCh = true; decide
+example : stripWs (Fq.marshal Gen.Encoder.fq (fun _ _ => []) false 3 (.obj [([97, 32, 98], .arr [.int 1, .str [32]])]))
+    = [123, 34, 97, 32, 98, 34, 58, 91, 49, 44, 34, 32, 34, 93, 125] := by decide
+
+/-- KEY ORDER does not depend on the sort algorithm: fq sorts with slices.SortFunc(cmp.Compare), gojq with
+    sort.Slice(<) — on the distinct keys of a Go map ANY arrangement that is a permutation of the entries and
+    strictly increasing bytewise is the model's `sortKeys` -/
+theorem key_order_unique (kvs out : List (List Nat × JV)) (hnd : (kvs.map (·.1)).Nodup)
+    (hperm : out.Perm kvs) (hsorted : Sorted out) : out = sortKeys kvs :=
+  sorted_perm_unique out (sortKeys kvs) (hperm.trans (sortKeys_perm kvs).symm) hsorted (sortKeys_sorted kvs hnd)
+
+/-- non-vacuity: three distinct keys incl. a prefix pair and a byte ≥ 0x80 -/
+example : (sortKeys [([98], .null), ([97, 0], .null), ([0xc3], .null), ([97], .null)]).map (·.1)
+    = [[97], [97, 0], [98], [0xc3]] := by decide
+example : (([([98], JV.null), ([97, 0], .null), ([0xc3], .null), ([97], .null)] : List (List Nat × JV)).map (·.1)).Nodup := by decide
+/-- … and what the three encoders write for `{"b":[1,-2^64,"é\xff"],"a":{}}` (a map iterated b-first), compact and
+    `--indent 1` -/
+example : Fq.marshal Gen.Encoder.fq (fun _ _ => []) false 0
+      (.obj [([98], .arr [.int 1, .big (-18446744073709551616), .str [0xc3, 0xa9, 0xff]]), ([97], .obj [])])
+    = [123,34,97,34,58,123,125,44,34,98,34,58,91,49,44,45,49,56,52,52,54,55,52,52,48,55,51,55,48,57,53,53,49,54,49,54,44,
+       34,0xc3,0xa9,92,117,102,102,102,100,34,93,125] := by decide
+example : GojqCli.marshal Gen.Encoder.gojq (fun _ _ => []) false 1 (.obj [([98], .arr [.null]), ([97], .obj [])])
+    = [123,10,32,34,97,34,58,32,123,125,44,10,32,34,98,34,58,32,91,10,32,32,110,117,108,108,10,32,93,10,125] := by decide
+
+/-! ### `fromjson`: number tokens and framing -/
+open FqModel.C07Enc.Num
+
+/-- the number conversion of fq's fromjson IS the reference's: format/json/json.go:74 calls gojq.NormalizeNumbers,
+    the function funcFromJSON ends with (func.go:920). (Definitional — fq owns only the decoder set-up and the
+    framing; what the shared function DOES on every token of the grammar is `normalizeNumber_spec`.) -/
+theorem fromjson_number_agrees (ovf : Tok → Bool) (t : Tok) : fqFromJSONNumber ovf t = gojqFromJSONNumber ovf t := rfl
+
+/-- what both return, for EVERY token of the JSON number grammar: an integer literal in the int64 range is an
+    `int` with that value (`-0` → 0), an integer literal outside it a big integer with that value (never a float:
+    `100000000000000000000` keeps all digits), a literal with a fraction or an exponent a float (`1.0`, `1e2` do NOT
+    become integers), unless its magnitude overflows float64 — then ±Inf by its sign (`1e999`) -/
+theorem normalizeNumber_spec (ovf : Tok → Bool) (t : Tok) :
+    (t.isInt = true → -(2 : Int) ^ 63 ≤ t.intVal → t.intVal < (2 : Int) ^ 63 → normalizeNumber ovf t = .int t.intVal) ∧
+    (t.isInt = true → (t.intVal < -(2 : Int) ^ 63 ∨ (2 : Int) ^ 63 ≤ t.intVal) → normalizeNumber ovf t = .big t.intVal) ∧
+    (t.isInt = false → ovf t = false → normalizeNumber ovf t = .float) ∧
+    (t.isInt = false → ovf t = true → normalizeNumber ovf t = if t.neg then .negInf else .posInf) := by
+  refine ⟨?_, ?_, ?_, ?_⟩
+  · intro h1 h2 h3; simp [normalizeNumber, h1]; omega
+  · intro h1 h2
+    have : ¬ (-(2 : Int) ^ 63 ≤ t.intVal ∧ t.intVal < (2 : Int) ^ 63) := by omega
+    simp only [normalizeNumber, h1, Bool.true_and, Bool.and_eq_true, decide_eq_true_eq, this, if_false]
+    simp
+  · intro h1 h2; simp [normalizeNumber, h1, h2]
+  · intro h1 h2; simp [normalizeNumber, h1, h2]
+
+/-- the grammar is the one the check enumerates: the reader used by the driver on the REAL tokens (every string
+    over `0-9.eE+-` up to length 5 that encoding/json takes as one number, and none of the others) reads every
+    well-formed token of any length back from its text -/
+theorem number_grammar_roundtrip (t : Tok) (hwf : t.wf = true) : parse t.text = some t :=
+  Proofs.C07Num.parse_text t hwf
+
+example : (⟨true, [1, 0], some [0, 5], some (true, 2, [0, 7])⟩ : Tok).wf = true ∧
+    (⟨true, [1, 0], some [0, 5], some (true, 2, [0, 7])⟩ : Tok).text = [45, 49, 48, 46, 48, 53, 69, 45, 48, 55] := by decide
+
+/-- the token reader of the driver accepts exactly the texts of well-formed tokens: non-vacuity of the grammar
+    (every class: `-0`, `10`, `1.0`, `1e2`, `0E-07`, 2^63, `-1.5e+999`) -/
+example : [[45, 48], [49, 48], [49, 46, 48], [49, 101, 50], [48, 69, 45, 48, 55]].map (fun s => (parse s).map (fun t => (t.wf, t.text == s)))
+    = [some (true, true), some (true, true), some (true, true), some (true, true), some (true, true)] := by decide
+example : (parse [48, 49]).isNone ∧ (parse [49, 46]).isNone ∧ (parse [46, 49]).isNone ∧ (parse [49, 101]).isNone ∧
+    (parse [43, 49]).isNone ∧ (parse [45]).isNone ∧ (parse []).isNone ∧ (parse [49, 101, 43]).isNone := by decide
+example : (parse [45, 48]).map (normalizeNumber (fun _ => false)) = some (.int 0) := by decide
+example : (parse [57, 50, 50, 51, 51, 55, 50, 48, 51, 54, 56, 53, 52, 55, 55, 53, 56, 48, 56]).map (normalizeNumber (fun _ => false))
+    = some (.big 9223372036854775808) := by decide
+example : (parse [49, 46, 48]).map (normalizeNumber (fun _ => false)) = some .float := by decide
+example : (parse [45, 49, 101, 57, 57, 57]).map (normalizeNumber (fun _ => true)) = some .negInf := by decide
+
+/-- FRAMING, where fq and the reference use DIFFERENT code: fq decodes in a loop and demands exactly one value
+    followed by io.EOF (format/json/json.go:46-69), the reference decodes once and demands that `Token()` returns
+    io.EOF (func.go:914-919). Given the standard-library fact that after a value `Token()` returns io.EOF exactly when
+    the next `Decode` would (only white space left; observed for every text of the run, `frame` lines), they accept
+    the same texts with the same value — for every stream of Decode results -/
+theorem fromjson_framing_agrees (first : Dec) (rest : List Dec) (tokenEOF : Bool)
+    (hstd : ∀ v, first = .value v → (tokenEOF = true ↔ rest.head? = some .eof)) :
+    fqFromJSON (first :: rest) = gojqFromJSON first tokenEOF := by
+  cases first with
+  | eof => simp [fqFromJSON, fqLoop, gojqFromJSON]
+  | err => simp [fqFromJSON, fqLoop, gojqFromJSON]
+  | value v =>
+    have h := hstd v rfl
+    cases rest with
+    | nil =>
+      have : tokenEOF = false := by cases tokenEOF <;> simp_all
+      simp [fqFromJSON, fqLoop, gojqFromJSON, this]
+    | cons d rest' =>
+      cases d with
+      | eof =>
+        have : tokenEOF = true := by simp_all
+        simp [fqFromJSON, fqLoop, gojqFromJSON, this]
+      | err =>
+        have : tokenEOF = false := by cases tokenEOF <;> simp_all
+        simp [fqFromJSON, fqLoop, gojqFromJSON, this]
+      | value w =>
+        have : tokenEOF = false := by cases tokenEOF <;> simp_all
+        have h1 := (fqLoop_value_cons v rest' [w]).1
+        have h2 := (fqLoop_value_cons w rest' []).1
+        simp only [fqFromJSON, fqLoop, gojqFromJSON, this, List.nil_append, List.cons_append]
+        generalize hr : fqLoop rest' [v, w] = r
+        have h3 := (fqLoop_value_cons v rest' [w]).1
+        rw [hr, h2] at h3
+        obtain ⟨vs, b⟩ := r
+        simp only at h3
+        subst h3
+        cases b <;> simp
+
+/-- non-vacuity: `1 ` (a value, then EOF) is accepted by both, `1 2` and `1]` by neither -/
+example : fqFromJSON [.value 0, .eof] = .ok 0 ∧ gojqFromJSON (.value 0) true = .ok 0 ∧
+    fqFromJSON [.value 0, .value 1, .eof] = .fail ∧ fqFromJSON [.value 0, .err] = .fail ∧ fqFromJSON [.eof] = .fail := by decide
+
+/- Where fq DELIBERATELY differs from the reference's fromjson (not the text layer; recorded in known_findings.json
+   and classified per case by the differential run, unchanged): the RESULT is a decode value with the lookup rules
+   of C08 (`c07-fromjson-decode-value-index`: `"[1]" | fromjson | .a` is null, the reference fails), and an ARGUMENT
+   that is the root string of a previous json decode is re-decoded from its buffer, quotes included
+   (`c07-fromjson-of-fromjson-root-string`); and fq extends the domain to non-strings (see the assumptions). -/
+end TextLayer
 
 /-! ## non-vacuity -/
 
